@@ -423,6 +423,7 @@ func checkC02OpenSent(c *Check) {
 	c.cleanupContract("C02.5 refusal-closes-connection")
 	c.messageResults("C02.3 decode-result-used")
 	c.codecContracts("C02.3 codec-effects")
+	c.readerFraming("C02.3 open-reaches-decoder")
 	c.accumulatorsStartEmpty("C02.3 accumulators", "decodeOptionalParams", "capabilityOptionalParam.decode", "openMessage.getCapabilities")
 	c.specConstants("C02.1 spec-constants", "NOTIF_CODE_OPEN_MESSAGE_ERR", "NOTIF_SUBCODE_UNSUPPORTED_VERSION_NUM", "NOTIF_SUBCODE_BAD_PEER_AS", "NOTIF_SUBCODE_BAD_BGP_ID", "NOTIF_SUBCODE_UNSUPPORTED_OPTIONAL_PARAM", "NOTIF_SUBCODE_UNACCEPTABLE_HOLD_TIME", "NOTIF_SUBCODE_UNSUPPORTED_CAPABILITY", "asTrans", "capabilityOptionalParamType", "CAP_FOUR_OCTET_AS", "openMessageType")
 	outer := p.Fn("fsm.openSent")
